@@ -63,6 +63,17 @@ def embedded_files(chk):
                 recs.insert(pos, att)
                 for mx in (1000, 2):
                     out.append(Fm.Workload(sh, codec, mx, recs + ["W"], "embedded-file@%d" % pos))
+            # an embedded file with two row groups inside the second row group of the outer file: the prefix opens,
+            # its first row group reads in the constructor, the cut is met by the lazy load of Next
+            lines = Fm.shape_lines(shs) + ["j write %s %d 1000 -1 0 4 A G 2 I9 %s W A G 2 I8 %s W" % (sh.name, codec, wrap("S6162"), wrap("S6364"))]
+            impl, _, _, _ = C.run_cases(lines, "C11-inner2", impl_cmd=[runner], model_lines=[])
+            pw = Fm.parse_write(impl.get("j"))
+            if pw:
+                att2 = "G 2 I5 " + wrap("S" + b"".join(pw[1]).hex())
+                for pos in range(2):
+                    recs = [plain[1]]
+                    recs.insert(pos, att2)
+                    out.append(Fm.Workload(sh, codec, 1000, [plain[0], "W"] + recs + ["W"], "embedded-2rg-file@%d" % pos))
     lines = Fm.shape_lines(shs) + [w.line("w%d" % i) for i, w in enumerate(out)]
     impl, _, _, _ = C.run_cases(lines, "C11-embedded", impl_cmd=[runner], model_lines=[])
     files = []
@@ -170,7 +181,7 @@ def run(chk, st, tier):
     chk.coverage["exhaustive"] = True
     if files:
         chk.sample({"file": files[0][0].describe(), "bytes": len(files[0][1]), "status_per_cut": (impl.get("p0") or "")[:120]})
-    chk.coverage["rule"] = ("portfolio files (3 codecs, page sizes 1,2,1000) and 36 files (string column last: required / optional / repeated) with a value that is itself a complete file of the same struct (first/middle/last record): EVERY strict prefix (cut = 0..len-1) read by the real generated reader; it must report an error (constructor or Error()), never accept, never panic. "
+    chk.coverage["rule"] = ("portfolio files (3 codecs, page sizes 1,2,1000) and 48 files (string column last: required / optional / repeated) with a value that is itself a complete file of the same struct (first/middle/last record): EVERY strict prefix (cut = 0..len-1) read by the real generated reader; it must report an error (constructor or Error()), never accept, never panic. "
                             "Model and implementation are compared on prefixes whose verdict does not depend on the thrift decoder's behaviour on garbage (shorter than 8 bytes; trailer length pointing before the file start) and on the crafted "
                             "embedded-trailer witness. distinct counts files; evaluations counts prefixes.")
     chk.coverage["explanation"] = ("C11_short_rejected / C11_bad_length_rejected are proved; the unconditional statement is false for any footer-last format: C11_refuted (coq/props/C11.v) exhibits a valid file with an accepted strict prefix, "
